@@ -27,13 +27,17 @@ ID = "C02"
 LEVEL = "exploration"
 RULE = ("directed: matrix model (11 dependency-path kinds x {direct, through cached, through uncached intermediate} "
         "+ inheritance + ItemSpace) x 60 edit kinds x {everything evaluated before the edit} x paddings of random "
-        "further edits; random: grammar models x histories of 3-14 edits interleaved with evaluations. Oracle = fresh "
+        "further edits; handled-failure probe: a formula that catches the failure of a callee x 5 kinds of source the "
+        "callee used x 3 modes x cached/uncached intermediate x depth (60 cases); "
+        "random: grammar models x histories of 3-14 edits interleaved with evaluations. Oracle = fresh "
         "model that replayed only the edits. Non-trivial = at least one edit changed the answer of a query that was "
         "held before it (an 'effective' edit); distinct = distinct (edit-kind sequence, model seed)")
 ASSUMPTIONS = ["fresh-replay model is built by the same library (C01 ties values to the reference evaluator)",
                "exceptions are compared by the class of the original exception"]
-MIN_COUNTERS = {"quick": {"queries_compared": 20000, "effective_edits": 200, "edits": 1500},
-                "thorough": {"queries_compared": 500000, "effective_edits": 8000, "edits": 40000}}
+MIN_COUNTERS = {"quick": {"queries_compared": 20000, "effective_edits": 200, "edits": 1500,
+                          "handled_probe_fixture_ok": 60, "handled_first_evaluations": 40},
+                "thorough": {"queries_compared": 500000, "effective_edits": 8000, "edits": 40000,
+                             "handled_probe_fixture_ok": 60, "handled_first_evaluations": 40}}
 SHARD_TIMEOUT = {"quick": 900, "thorough": 5400}
 
 
